@@ -210,7 +210,7 @@ def cli_layer(rep, prop, wd):
         untouched = all(a["files"].get(f["path"]) == (f["text"], False) for f in SOURCES + TREES[tn]) and len(a["files"]) == len(SOURCES + TREES[tn])
         if v["outcome"] == "refused":
             compared += 1
-            if not (a_st.get("exit") == 1 and untouched):
+            if not (a_st.get("exit") not in (0, None) and untouched):       # any refusal: non-zero exit, nothing touched
                 if mine({"C17"}):
                     rep.violation(key, f"TXTPP_FILE is set but the binary did not refuse to start (exit {a_st.get('exit')}, files touched: {not untouched}) {ctx}",
                                   dict(vector=v, tree=tn, observed=a_st))
@@ -218,7 +218,7 @@ def cli_layer(rep, prop, wd):
             continue
         if v["outcome"] == "usage":
             compared += 1
-            if not (a_st.get("exit") == 2 and untouched):
+            if not (a_st.get("exit") not in (0, None) and untouched):
                 # the binary acted on a command line the declaration rejects
                 if mine(by_flags(v["argv"])) and not untouched:
                     rep.violation(key, f"Cli.tla prescribes a usage error, the binary exited {a_st.get('exit')} and changed files {ctx}", dict(vector=v, tree=tn, observed=a_st))
@@ -285,7 +285,7 @@ def replay_vector(prop, r, wd):
         return True
     untouched = all(a["files"].get(f["path"]) == (f["text"], False) for f in files) and len(a["files"]) == len(files)
     if v["outcome"] == "refused":
-        return not (a_st.get("exit") == 1 and untouched)
+        return not (a_st.get("exit") not in (0, None) and untouched)
     if v["outcome"] == "usage":
         return not untouched
     b = signature(res[1]["steps"][0])
